@@ -26,7 +26,7 @@ structural fact of the two query loops); regenerated from /repo on every run. -/
 theorem code_shape_facts :
     offsetPositiveBranchSettles = true ∧ fiteratorSetBackwardDropsCache = true ∧ backwardEofKeepsPos = true ∧
     fwdEndPosFromDecisionCount = true ∧ bothLoopsClampAndCount = true ∧ cacheIsWaitOrClamped = true ∧
-    newCursorSortsSources = true ∧ emptyCursorKeepsState = true := by decide
+    newCursorSortsSources = true ∧ emptyCursorKeepsState = true ∧ applyStateDropsBuffers = true := by decide
 
 /-- widths of the position text as the code has them now -/
 theorem pos_widths_generated :
@@ -172,27 +172,23 @@ theorem paging_j3 :
 
 /-! ## open findings: counterexamples evaluated on the model -/
 
-/-- #22: a held cursor, WHERE; page 1, page 2, then page 2's request again (same id, the older position).
-With the code as it is (regenerated fact `applyStateDropsBuffers = false`) the repeated answer differs from page 2 —
-it starts with the event the fiterator had buffered; on a tree where `ApplyState` drops the buffers (the proposed
-repair, fact `true`) it repeats page 2. One theorem, valid on both trees. -/
+/-- the old witness of #22 (repaired by 0706090), now passing: a held cursor, WHERE; page 1, page 2, then page 2's
+request again (same id, the older position) repeats page 2 (it used to start with the event the fiterator had buffered). -/
 theorem resend_older_pos_filtered :
     let q : Qry := qAll true
     let j : Journal := [⟨10, [r 0, r 1, r 2, r 3, r 4, r 5], 0, maxU32⟩]
     let (s1, p1) := query queryMaxLimit (onePart j) { query := some q, limit := 2, wait := true }
     let (s2, p2) := query queryMaxLimit s1 p1.next
     let (_, p3) := query queryMaxLimit s2 p1.next
-    p2.events.map (·.lbl) = [2, 3] ∧
-      (applyStateDropsBuffers = true → p3.events.map (·.lbl) = [2, 3]) ∧
-      (applyStateDropsBuffers = false → p3.events.map (·.lbl) = [4, 3]) := by decide +kernel
+    p2.events.map (·.lbl) = [2, 3] ∧ p3.events.map (·.lbl) = [2, 3] := by decide +kernel
 
-/-- With the proposed repair of #22 in the code (regenerated fact `applyStateDropsBuffers = true`), `ApplyState` with
-a position that differs from the held cursor's own yields the re-positioned cursor with its buffers dropped. -/
-theorem applyState_repaired (h : Held) (qt : Nat) (m : List (Nat × Pos)) (hf : applyStateDropsBuffers = true)
+/-- `ApplyState` with a position that differs from the held cursor's own yields the re-positioned cursor with its
+buffers dropped (0706090; the code shape is the regenerated fact `applyStateDropsBuffers` in `code_shape_facts`). -/
+theorem applyState_repaired (h : Held) (qt : Nat) (m : List (Nat × Pos))
     (hq : h.qtext = qt) (hne : h.pos ≠ .map m) :
     applyState h qt (.map m) =
       some { h with pos := .map m, cur := curSetBackward (curSetBackward (applyStatePos h.cur m) true) false } := by
-  simp [applyState, hq, hne, hf]
+  simp [applyState, hq, hne]
 
 /-- **a re-sent page is the page a fresh cursor serves** (one partition, un-ranged, ± WHERE; ALL journals, ANY state
 of the held cursor — in particular with an event cached in its fiterator —, any settled position, any limit): the
@@ -206,9 +202,8 @@ theorem resent_page_is_fresh_page (name : Nat) (j : Journal) (w : Bool) (c : Cur
   ⟨(pg_pageOn_abs getFwd nextFwd hs lim (rs_reposition hs h hp)).1,
    (pg_pageOn_abs getFwd nextFwd hs lim (pg_fresh_abs name j w p)).1⟩
 
-/-- #22 on a merged cursor WITHOUT any filter: the `Mixer`'s selected head survives `ApplyState` as well. Two
-partitions, page 1, page 2, page 2's request again: the repeated page starts with the stale head and event 1 is
-lost. -/
+/-- the merged witness of #22, now passing: two partitions WITHOUT any filter, page 1, page 2, page 2's request again
+repeats page 2 (the `Mixer`'s selected head used to survive `ApplyState`: stale head first, event 1 lost). -/
 theorem resend_older_pos_merged :
     let q : Qry := qAll false
     let rt (l : Nat) (t : Int) : Rec := { lbl := l, ts := t }
@@ -218,8 +213,7 @@ theorem resend_older_pos_merged :
     let (s2, p2) := query queryMaxLimit s1 p1.next
     let (_, p3) := query queryMaxLimit s2 p1.next
     p1.events.map (·.lbl) = [0, 100000] ∧ p2.events.map (·.lbl) = [1, 100001] ∧
-      (applyStateDropsBuffers = true → p3.events.map (·.lbl) = [1, 100001]) ∧
-      (applyStateDropsBuffers = false → p3.events.map (·.lbl) = [2, 100001]) := by decide +kernel
+      p3.events.map (·.lbl) = [1, 100001] := by decide +kernel
 
 /-! ### a chain that starts while no partition matches (finding #35, repaired by a8a4a54) -/
 
